@@ -169,10 +169,13 @@ class C01(Property):
     id = "C01"
     title = "flatten() output rebuilds the same element tree through from_flat()"
     proof_module = "Proofs.C01Examples"
-    level_text = 'Lean 4 theorem `roundtrip`: for every well-formed schema without SparseDicts, every SepSafe separator and every conforming settled element state (pruning sequences restricted to non-empty values), from_flat(flatten(e)) rebuilds e itself — any depth/width/nesting, through the real breadth-first order, the sloppy startswith of Mapping._set_flat and the List index recogniser. Model tied to /repo by differential correspondence on states extracted from real elements; the documented pruning loss, SparseDicts and leaf values are decided by an independent Python oracle on every case.'
-    level_note = "Trusted: Lean kernel + propext/Classical.choice/Quot.sound; hand-written model Flatland/Flat.lean (tied by correspondence, 2.5k/80k cases per run); scalar set(text) and compound texts enter as tables computed from the real classes in isolation (C04/C18); SepSafe is stronger than 'separator not in names' (KF-C01-a); theorem excludes actual pruning and SparseDicts (oracle only)."
+    level_text = 'Lean 4 theorems `roundtrip_pruned` and `roundtrip`: for every well-formed schema without SparseDicts, every SepSafe separator and every conforming settled element state, from_flat(flatten(e)) rebuilds exactly the documented pruning `pr e` of e (pruning Lists keep the members that still emit a non-empty value, renumbered; non-pruning Lists lose trailing members without a flat representation; Arrays drop empty members when pruning applies), and e itself when no pruning applies — any depth/width/nesting, through the real breadth-first order, the sloppy startswith of Mapping._set_flat and the List index recogniser. Model tied to /repo by differential correspondence on states extracted from real elements; SparseDicts and native leaf values are decided by an independent Python oracle on every case.'
+    level_note = "Trusted: Lean kernel + propext/Classical.choice/Quot.sound; hand-written model Flatland/Flat.lean (tied by correspondence, 2.5k/80k cases per run); scalar set(text) and compound texts enter as tables computed from the real classes in isolation (C04/C18); SepSafe is stronger than 'separator not in names' (KF-C01-a); theorems exclude SparseDicts (oracle only; negation witness roundtrip_sparse_fails)."
     technique = 'Lean 4 proof (structural induction + level-order lemma + confinement) over a hand-written model; differential correspondence; Python oracle'
     theorems = [
+        "Flatland.Flat.Proofs.roundtrip_pruned",
+        "Flatland.Flat.Proofs.rtp_all",
+        "Flatland.Flat.Proofs.rtp_list",
         "Flatland.Flat.Proofs.roundtrip",
         "Flatland.Flat.Proofs.roundtrip_flatten",
         "Flatland.Flat.Proofs.roundtrip_second",
